@@ -317,7 +317,9 @@ func clientOffline(name string, payloads []payload, connectLater bool, bound int
 		}
 		var after cbLog
 		cliConnected := false
+		cliDisconnected := false
 		sock.OnConnect(func() { sv.Do(func() { cliConnected = true }) })
+		sock.OnDisconnect(func(sio.Reason) { sv.Do(func() { cliDisconnected = true }) })
 		if connectLater {
 			vsched.GoQuiet("connect-later", func() {
 				vsched.Sleep(2 * T)
@@ -336,18 +338,22 @@ func clientOffline(name string, payloads []payload, connectLater bool, bound int
 			}
 			sort.Strings(srvGot)
 			out = append(out, fmt.Sprint(srvGot, after.calls))
+			// With early timers the timeout may elapse before Emit itself has returned (e.g. before the frames
+			// reached the send buffer): what then happens to the frames is outside the statement, only the
+			// callback count is judged. With the exact clock the purge must have worked.
 			for _, g := range srvGot {
-				if g == "q" {
+				if g == "q" && !early {
 					r.Violate("client offline: timed-out packet was sent after all", "the server received an event whose ack had already timed out: %v", srvGot)
 				}
 			}
-			if connectLater {
+			if connectLater && !(early && (cliDisconnected || !cliConnected)) {
+				// (an early connect timeout on the server may legitimately have ended the connection)
 				if fmt.Sprint(after.calls) != "[nil|ok]" {
 					r.Violate("client offline: socket unusable after an ack timeout", "an emit after connecting got %v (server saw %v)", after.calls, srvGot)
 				}
 			}
 			sb, _ := sio.VerifClientSocketBuffers(sock)
-			if sb != 0 {
+			if sb != 0 && !early {
 				r.Violate("client offline: frames of a timed-out packet left in the send buffer", "%d frames left", sb)
 			}
 			r.Outcome = strings.Join(out, " ")
@@ -428,7 +434,7 @@ func clientOnline(name string, delays []time.Duration, attachments int, cut time
 				mayTimeout := early || d < 0 || d >= T || cutBefore
 				judgeTimeoutAck(&r, fmt.Sprintf("%s emit#%d delay=%v", name, i, d), "client online", logs[i].calls, fmt.Sprintf("r%d", i), mayReply, mayTimeout)
 			}
-			if n := sio.VerifPendingAcks(sock); n != 0 {
+			if n := sio.VerifPendingAcks(sock); n != 0 && !early {
 				r.Violate("client online: ack entry left behind", "%d ack entries still registered at the end", n)
 			}
 			r.Outcome = strings.Join(out, " ")
